@@ -181,3 +181,58 @@ MUTANTS += [
  dict(id="C11-parse-hash-19-bytes", props=["C11"], expect={"C11": r"reload#parse_info_hash"},
       edits=[(AC, "    let mut bytes = [0u8; 20];\n\n    hex::decode_to_slice(line, &mut bytes)?;", "    let mut bytes = [0u8; 20];\n\n    hex::decode_to_slice(line, &mut bytes[..19])?;")]),
 ]
+
+MIO = US + "workers/socket/mio/"
+UR = US + "workers/socket/uring/"
+MUTANTS += [
+ dict(id="C06-uring-sendable-error-ungated", props=["C06"], expect={"C06": r"guard#uring#sendable_error"},
+      edits=[(UR+"mod.rs", "                        if self.validator.connection_id_valid(addr, connection_id) {\n                            let response = ErrorResponse {",
+              "                        if self.validator.connection_id_valid(addr, connection_id) || err.len() > 20 {\n                            let response = ErrorResponse {")]),
+ dict(id="C06-mio-scrape-before-validation", props=["C06"], expect={"C06": r"guard#mio#(handle_request|reply_table)"},
+      edits=[(MIO+"mod.rs", """                if self
+                    .validator
+                    .connection_id_valid(src, request.connection_id)
+                {
+                    return Some(Response::Scrape(
+                        self.shared_state.torrent_maps.scrape(request, src),
+                    ));
+                }""", """                let valid = self
+                    .validator
+                    .connection_id_valid(src, request.connection_id);
+                let response = Response::Scrape(
+                        self.shared_state.torrent_maps.scrape(request, src),
+                    );
+                if valid {
+                    return Some(response);
+                }""")]),
+ dict(id="C06-mio-second-send-on-error", props=["C06"], expect={"C06": r"reply#mio#(at_most_one|parse_errors)"},
+      edits=[(MIO+"socket.rs", "                            self.send_response(shared, src, Response::Error(response), false);\n",
+              "                            self.send_response(shared, src, Response::Error(response.clone()), false);\n                            self.send_response(shared, src, Response::Error(response), true);\n")]),
+ dict(id="C06-mio-port0-after-parse", props=["C06"], expect={"C06": r"reply#mio#port0_ignored"},
+      edits=[(MIO+"socket.rs", "                    if src_port == 0 {\n", "                    if src_port == 0 && bytes_read < 16 {\n")]),
+ dict(id="C06-uring-reply-to-other-addr", props=["C06"], expect={"C06": r"guard#uring#reply_table"},
+      edits=[(UR+"mod.rs", """                    let response =
+                        Response::Scrape(self.shared_state.torrent_maps.scrape(request, src));
+
+                    return Some((src, response));""", """                    let response =
+                        Response::Scrape(self.shared_state.torrent_maps.scrape(request, src));
+
+                    return Some((CanonicalSocketAddr::new(src.get_ipv6_mapped()), response));""")]),
+ dict(id="C06-mio-connect-txid-zero", props=["C06"], expect={"C06": r"guard#mio#reply_table"},
+      edits=[(MIO+"mod.rs", "                    connection_id: self.validator.create_connection_id(src),\n                    transaction_id: request.transaction_id,",
+              "                    connection_id: self.validator.create_connection_id(src),\n                    transaction_id: TransactionId::new(request.transaction_id.0.get() & 0x7fff_ffff),")]),
+ dict(id="C06-uring-announce-none-when-forbidden", props=["C06"], expect={"C06": r"guard#uring#reply_table"},
+      edits=[(UR+"mod.rs", """                        let response = Response::Error(ErrorResponse {
+                            transaction_id: request.transaction_id,
+                            message: "Info hash not allowed".into(),
+                        });
+
+                        return Some((src, response));""", """                        let _response = Response::Error(ErrorResponse {
+                            transaction_id: request.transaction_id,
+                            message: "Info hash not allowed".into(),
+                        });""")]),
+ dict(id="C06-uring-sockaddr-port-from-le", props=["C06"], expect={"C06": r"send#uring#sockaddr"},
+      edits=[(UR+"send_buffers.rs", "self.name_v6.sin6_port = addr.port().to_be();", "self.name_v6.sin6_port = addr.port().to_le();")]),
+ dict(id="C06-scrape-reversed", props=["C06"], expect={"C06": r"scrape#order"},
+      edits=[(US+"swarm.rs", "        for info_hash in request.info_hashes {\n            let torrent_map_shard = self.get_shard(&info_hash);", "        for info_hash in request.info_hashes.into_iter().rev() {\n            let torrent_map_shard = self.get_shard(&info_hash);")]),
+]
